@@ -533,14 +533,14 @@ def _run_step(k, st, sc, loader, params, NM, script):
     elif k == 0:
         new = {tuple(key): float(fr(v)) for key, v in sc["jdd"]}
         if inplace:
-            _edit_dict(params[NM.JDD], new)
+            _edit_dict(loader.jdd, new)          # the dictionary the loader exposes (unchanged code: the caller's own)
         else:
             params[NM.JDD] = new
             loader.jdd = new
     elif k == 1:
         new = [tuple(x) for x in sc["jds"]]
         if inplace:
-            _edit_list(params[NM.JDS], new)
+            _edit_list(loader.empirical_jds, new)    # the sequence the loader holds and exposes (the caller's own list)
         else:
             params[NM.JDS] = new
             loader.empirical_jds = new
@@ -564,10 +564,16 @@ def _run_step(k, st, sc, loader, params, NM, script):
             loader.motif_sizes = list(st["sizes"])
             params[NM.MOTIF_SIZES] = loader.motif_sizes
         else:
-            _edit_list(params[NM.MOTIF_SIZES], list(st["sizes"]))
-    held = {0: NM.JDD, 1: NM.JDS}.get(k)
-    before = copy.copy(params[held]) if held else [list(params[NM.LOW_HIGH_DEGREE_BOUND]), list(params.get(NM.ARR_FP, []))]
-    msz = list(params[NM.MOTIF_SIZES])
+            _edit_list(loader.motif_sizes, list(st["sizes"]))
+
+    def held():
+        if k == 0:
+            return dict(loader.jdd)
+        if k == 1:
+            return list(loader.empirical_jds)
+        return [list(params[NM.LOW_HIGH_DEGREE_BOUND]), list(params.get(NM.ARR_FP, []))]
+    before = held()
+    msz = list(loader.motif_sizes)
     n0 = len(script.log)
     out = {"how": how}
     try:
@@ -579,8 +585,7 @@ def _run_step(k, st, sc, loader, params, NM, script):
     d = max(1, len(sc.get("bounds", [])))
     out["calls"], out["answers"] = _obs_calls([e for e in script.log[n0:] if e[0] == "choices"], d)
     out["n_choices_calls"] = sum(1 for e in script.log[n0:] if e[0] == "choices")
-    after = copy.copy(params[held]) if held else [list(params[NM.LOW_HIGH_DEGREE_BOUND]), list(params.get(NM.ARR_FP, []))]
-    out["inputs_unchanged"] = after == before and list(loader.motif_sizes) == msz
+    out["inputs_unchanged"] = held() == before and list(loader.motif_sizes) == msz
     out["same_object"] = (loader.jdd is params[NM.JDD]) if k == 0 else None
     return out
 
@@ -672,6 +677,9 @@ def impl(case):
         out = {"jdd": jdd, "calls": rounds, "answers": idxs, "n_choices_calls": len(clog),
                "unused_answers": n_first - script.pos,
                "same_object": (loader.jdd is given) if k == 0 else None, "cls": type(loader).__name__,
+               # the loaders hold the caller's objects themselves (no copies) - a correspondence matter only
+               "holds_callers_objects": (loader.motif_sizes is params[NM.MOTIF_SIZES]) and
+               (k != 1 or loader.empirical_jds is params[NM.JDS]),
                "inputs_unchanged": inputs() == before and list(loader.motif_sizes) == msz}
         # history: the caller edits its own objects and asks again (same loader, same objects)
         steps = []
@@ -737,6 +745,8 @@ def compare(case, io, mo):
         return "a jdd key is not a tuple of ints"
     if case["kind"] == 0 and not io["same_object"]:
         return "manual loader does not expose the given dictionary object"
+    if not io.get("holds_callers_objects", True):
+        return "the loader holds a copy of the caller's observed sequence / motif sizes, not the object it was given"
     return None
 
 
